@@ -85,6 +85,8 @@ def check(ctx, rep):
                     # innermost handler
                 elif e.d["callee"] is None and q.call_name(e) in SETTERS:
                     n_trans += 1
+                    if may_raise(e, it, p):
+                        rep.ob("R-TOLERANT", "%s: %s in %s is tolerant of a lost race with cancel()" % (rname, fmt(e.d["func"]).split(".")[-1], e.fn.qualname), True, "", where_of(e.fn, e.node))
             if p.status != "raise":
                 continue
             v = p.value
